@@ -665,6 +665,12 @@ class Constructs(abstract.Container):
             # ---------------------------------------------------------
             # The construct could have a data array
             # ---------------------------------------------------------
+            if axes is None:
+                # A construct that replaces an existing one keeps the
+                # existing data axes, provided that they still match
+                # its shape
+                axes = self._construct_axes.get(key)
+
             if axes is not None:
                 self._set_construct_data_axes(
                     key=key, axes=axes, construct=construct
